@@ -11,6 +11,7 @@ import TxV.Drv.C18
 import TxV.Drv.Cfg
 import TxV.Drv.TorState
 import TxV.Drv.Prio
+import TxV.Drv.Launch
 open TxV.Drv
 
 def main (args : List String) : IO UInt32 := do
@@ -29,5 +30,6 @@ def main (args : List String) : IO UInt32 := do
   | ["Cfg"] => loop stdin stdout ({} : TxV.Config.St) Cfg.step; return 0
   | ["TorState"] => loop stdin stdout ({} : TxV.TorState.St) TorState.step; return 0
   | ["Prio"] => loop stdin stdout ({} : TxV.Attacher.St) Prio.step; return 0
+  | ["Launch"] => loop stdin stdout ({} : TxV.Launch.St) Launch.step; return 0
   | ["Ctl"] => loop stdin stdout ({} : Ctl.St) Ctl.step; return 0
   | _ => IO.eprintln "usage: driver <property-id>"; return 2
